@@ -35,7 +35,7 @@ pub uninterp spec fn sr(ctx_row: i32, ctx_column: i32, none_disp: bool, sheet_na
                         absolute_row: bool, absolute_column: bool, full_row: bool, full_column: bool) -> Seq<char>;
 pub open spec fn name_of(o: &Option<String>) -> Option<Seq<char>> { match o { Some(s) => Some(s@), None => None } }
 #[verifier::external_body]
-pub fn stringify_reference(context: Option<&CellReferenceRC>, displace_data: &DisplaceData, reference: &Reference, full_row: bool, full_column: bool) -> (r: String)
+pub fn stringify_reference(context: Option<&CellReferenceRC>, displace_data: &DisplaceData, reference: &Reference, full_row: bool, full_column: bool, language: &Language) -> (r: String)
     requires context.is_some()
     ensures r@ == sr(context.unwrap().row, context.unwrap().column, *displace_data is None, name_of(reference.sheet_name), reference.sheet_index,
                      reference.row, reference.column, reference.absolute_row, reference.absolute_column, full_row, full_column)
@@ -47,7 +47,7 @@ pub open spec fn kept_name(sheet_name: &Option<String>, m: &MoveContext) -> Opti
 }
 
 pub fn arm_reference(move_context: &MoveContext, sheet_name: &Option<String>, sheet_index: &u32, absolute_row: &bool, absolute_column: &bool,
-                     row: &i32, column: &i32) -> (r: String)
+                     row: &i32, column: &i32, language: &Language) -> (r: String)
     requires ctx_small(move_context), small(*row as int), small(*column as int)
     ensures ({
         let tr = if *absolute_row { *row as int } else { *row + move_context.row };
@@ -77,7 +77,7 @@ pub fn arm_reference(move_context: &MoveContext, sheet_name: &Option<String>, sh
 //@end
 
 pub fn arm_range(move_context: &MoveContext, sheet_name: &Option<String>, sheet_index: &u32, absolute_row1: &bool, absolute_column1: &bool, row1: &i32, column1: &i32,
-                 absolute_row2: &bool, absolute_column2: &bool, row2: &i32, column2: &i32) -> (r: String)
+                 absolute_row2: &bool, absolute_column2: &bool, row2: &i32, column2: &i32, language: &Language) -> (r: String)
     requires ctx_small(move_context), small(*row1 as int), small(*column1 as int), small(*row2 as int), small(*column2 as int)
 //@arm#1 base/src/expressions/parser/move_formula.rs to_string_moved `RangeKind {`
 //@before `format!("{s1}:{s2}")`
